@@ -44,6 +44,9 @@ class Run:
         self.notes = []
 
     def cleanup(self):
+        if os.environ.get("VERIF_KEEP_TMP"):
+            print("kept", self.tmp)
+            return
         shutil.rmtree(self.tmp, ignore_errors=True)
 
     # ---------------------------------------------------------------- Go harness
